@@ -47,34 +47,55 @@ theorem B64.toNat_ofNat_lt {n : Nat} (h : n < 256) : (UInt8.ofNat n).toNat = n :
 
 /-! ### decode ∘ encode -/
 
+/-- arithmetic of one 3-byte / 4-sextet group -/
+theorem B64.group3_arith (x y z n : Nat) (hx : x < 256) (hy : y < 256) (hz : z < 256)
+    (hn : n = x * 65536 + y * 256 + z) :
+    n / 262144 < 64 ∧ n / 4096 % 64 < 64 ∧ n / 64 % 64 < 64 ∧ n % 64 < 64 ∧
+    n / 262144 * 4 + n / 4096 % 64 / 16 = x ∧
+    n / 4096 % 64 % 16 * 16 + n / 64 % 64 / 4 = y ∧
+    n / 64 % 64 % 4 * 64 + n % 64 = z ∧ n / 64 % 64 % 4 = z / 64 ∧ n / 4096 % 64 % 16 = y / 16 := by
+  subst hn
+  refine ⟨?_, ?_, ?_, ?_, ?_, ?_, ?_, ?_, ?_⟩ <;> omega
+
+theorem B64.decode_group (v0 v1 v2 v3 : Nat) (rest : Bytes) (h0 : v0 < 64) (h1 : v1 < 64) (h2 : v2 < 64)
+    (h3 : v3 < 64) :
+    B64.decode (B64.charOf v0 :: B64.charOf v1 :: B64.charOf v2 :: B64.charOf v3 :: rest) =
+      match B64.decode rest with
+      | none => none
+      | some r => some (UInt8.ofNat (v0 * 4 + v1 / 16) :: UInt8.ofNat (v1 % 16 * 16 + v2 / 4)
+                        :: UInt8.ofNat (v2 % 4 * 64 + v3) :: r) := by
+  simp only [B64.decode, B64.valOf_charOf _ h0, B64.valOf_charOf _ h1, B64.valOf_charOf _ h2, B64.valOf_charOf _ h3,
+      if_neg (B64.charOf_ne_pad _ h2), if_neg (B64.charOf_ne_pad _ h3)]
+  cases B64.decode rest <;> rfl
+
+theorem B64.decode_group2 (v0 v1 v2 : Nat) (h0 : v0 < 64) (h1 : v1 < 64) (h2 : v2 < 64) (h4 : v2 % 4 = 0) :
+    B64.decode [B64.charOf v0, B64.charOf v1, B64.charOf v2, 61] =
+      some [UInt8.ofNat (v0 * 4 + v1 / 16), UInt8.ofNat (v1 % 16 * 16 + v2 / 4)] := by
+  simp only [B64.decode, B64.valOf_charOf _ h0, B64.valOf_charOf _ h1, B64.valOf_charOf _ h2,
+      if_neg (B64.charOf_ne_pad _ h2), h4, and_self, if_true]
+
+theorem B64.decode_group1 (v0 v1 : Nat) (h0 : v0 < 64) (h1 : v1 < 64) (h4 : v1 % 16 = 0) :
+    B64.decode [B64.charOf v0, B64.charOf v1, 61, 61] = some [UInt8.ofNat (v0 * 4 + v1 / 16)] := by
+  simp only [B64.decode, B64.valOf_charOf _ h0, B64.valOf_charOf _ h1, h4, and_self, if_true]
+
+/-- Decoding an encoding returns the bytes, for every byte string (all three length classes mod 3). -/
 theorem B64.decode_encode (b : Bytes) : B64.decode (B64.encode b) = some b := by
   fun_induction B64.encode b with
   | case1 a b c rest n ih =>
-    have ha := UInt8.toNat_lt a; have hb := UInt8.toNat_lt b; have hc := UInt8.toNat_lt c
-    have h0 : n / 262144 < 64 := by omega
-    have h1 : n / 4096 % 64 < 64 := by omega
-    have h2 : n / 64 % 64 < 64 := by omega
-    have h3 : n % 64 < 64 := by omega
-    simp only [B64.decode, B64.valOf_charOf _ h0, B64.valOf_charOf _ h1, B64.valOf_charOf _ h2, B64.valOf_charOf _ h3,
-      if_neg (B64.charOf_ne_pad _ h2), if_neg (B64.charOf_ne_pad _ h3), ih]
-    rw [B64.ofNat_eq_of_toNat (a := a) (by omega), B64.ofNat_eq_of_toNat (a := b) (by omega),
-      B64.ofNat_eq_of_toNat (a := c) (by omega)]
+    obtain ⟨h0, h1, h2, h3, ea, eb, ec, -, -⟩ :=
+      B64.group3_arith a.toNat b.toNat c.toNat n (UInt8.toNat_lt a) (UInt8.toNat_lt b) (UInt8.toNat_lt c) rfl
+    rw [B64.decode_group _ _ _ _ _ h0 h1 h2 h3, ih, ea, eb, ec]
+    simp only [UInt8.ofNat_toNat]
   | case2 a b n =>
-    have ha := UInt8.toNat_lt a; have hb := UInt8.toNat_lt b
-    have h0 : n / 262144 < 64 := by omega
-    have h1 : n / 4096 % 64 < 64 := by omega
-    have h2 : n / 64 % 64 < 64 := by omega
-    have h4 : n / 64 % 64 % 4 = 0 := by omega
-    simp only [B64.decode, B64.valOf_charOf _ h0, B64.valOf_charOf _ h1, B64.valOf_charOf _ h2,
-      if_neg (B64.charOf_ne_pad _ h2), h4, and_self, if_true]
-    rw [B64.ofNat_eq_of_toNat (a := a) (by omega), B64.ofNat_eq_of_toNat (a := b) (by omega)]
+    obtain ⟨h0, h1, h2, -, ea, eb, -, e4, -⟩ :=
+      B64.group3_arith a.toNat b.toNat 0 n (UInt8.toNat_lt a) (UInt8.toNat_lt b) (by omega) (by omega)
+    rw [B64.decode_group2 _ _ _ h0 h1 h2 e4, ea, eb]
+    simp only [UInt8.ofNat_toNat]
   | case3 a n =>
-    have ha := UInt8.toNat_lt a
-    have h0 : n / 262144 < 64 := by omega
-    have h1 : n / 4096 % 64 < 64 := by omega
-    have h4 : n / 4096 % 64 % 16 = 0 := by omega
-    simp only [B64.decode, B64.valOf_charOf _ h0, B64.valOf_charOf _ h1, h4, and_self, if_true]
-    rw [B64.ofNat_eq_of_toNat (a := a) (by omega)]
+    obtain ⟨h0, h1, -, -, ea, -, -, -, e4⟩ :=
+      B64.group3_arith a.toNat 0 0 n (UInt8.toNat_lt a) (by omega) (by omega) (by omega)
+    rw [B64.decode_group1 _ _ h0 h1 e4, ea]
+    simp only [UInt8.ofNat_toNat]
   | case4 => rfl
 
 /-! ### encode ∘ decode: the decoder is canonical -/
